@@ -135,6 +135,37 @@ def select_oracle(trace):
     return out
 
 
+def after_phase(trace, engine, root, tree, abs_path, j):
+    """ask for the policy AGAIN, outside the search: on the first root, on the tree just searched and on a few
+    expanded inner nodes, with C, 2C and C/2 (tree_probs for the configured C, Node.policy_probs for the others).
+    The wrappers log every call with the node's statistics frozen at that moment; the oracle and the Coq replay then
+    demand the formula for the CURRENT statistics and the C of the query."""
+    rec = trace["rec"]
+    C = trace["spec"]["C"]
+    targets = [([], root)]
+    if tree is not root:
+        targets.append((abs_path, tree))
+        targets += [([i], c) for i, c in enumerate(root.children or []) if c.children and [i] != abs_path[:1]][:1]
+    targets += [(abs_path + [i], c) for i, c in enumerate(tree.children or []) if c.children][:2]
+    cs = [C, 2 * C, C / 2]
+    cs = cs[j % 3:] + cs[:j % 3]
+    queries = []
+    for path, node in targets:
+        if not node.children:
+            continue
+        for cq in cs:
+            k0 = len(rec.all_calls)
+            if cq == C:
+                engine.tree_probs(node)
+            else:
+                node.policy_probs(cq)
+            call = rec.all_calls[-1] if len(rec.all_calls) > k0 else None
+            rec.policy_log[-1]["query"] = {"phase": j, "node_path": list(path), "C": cq}
+            queries.append({"path": list(path), "C": cq, "call": call})
+    rec.phases[-1]["queries"] = queries
+    rec.choices, rec.calls = [], []
+
+
 def case_term(trace):
     spec = trace["spec"]
     mix = spec["noise"]["mix"] if spec.get("noise") else 0.25
@@ -158,9 +189,18 @@ def examine(trace):
         pr = policy_oracle(entry)
         if entry["stats"] and any(s > 0 for s, _ in entry["stats"]["kids"]) and any(s == 0 for s, _ in entry["stats"]["kids"]):
             st["calls_with_visited_and_unvisited_children"] += 1
+        if entry.get("query"):
+            st["queries_after_the_search"] += 1
         if pr and len(problems) < 4:
             for p in pr:
                 p["node_visits"] = entry["stats"]["N"] if entry["stats"] else None
+                if entry.get("query"):
+                    p["asked_again_after_phase"] = entry["query"]["phase"]
+                    p["node_path_from_first_root"] = entry["query"]["node_path"]
+                    p["C_of_the_query"] = entry["query"]["C"]
+                    p["solver_was_called"] = entry["call"] is not None
+                    p["statistics_at_the_time"] = {"N": entry["stats"]["N"], "v_zero": entry["stats"]["v_zero"],
+                                                   "children_visits_value": entry["stats"]["kids"][:40]}
             problems.extend(pr)
     problems.extend(select_oracle(trace))
     st["max_alpha_spread_e9"] = int(1e9 * max([e.get("alpha_spread", 0.0) for e in trace["rec"].policy_log] or [0]))
@@ -170,15 +210,39 @@ def examine(trace):
 
 def volumes(run):
     if run.quick:
-        return dict(count=40, sizes=[3, 4], max_budget=40, transformer=1, smash=(3, 0))
-    return dict(count=400, sizes=[3, 4, 3, 4, 5, 3, 4, 6], max_budget=160, transformer=4)
+        return dict(count=40, sizes=[3, 4], max_budget=40, transformer=1, smash=(3, 0), reuse=8)
+    return dict(count=400, sizes=[3, 4, 3, 4, 5, 3, 4, 6], max_budget=160, transformer=4, reuse=80)
+
+
+def reuse_specs(rng, k, sizes=(3, 4)):
+    """search the root, continue BELOW one of its children with a larger limit (twice), asking for the root's policy
+    after every step: the root's own visit count no longer changes, its children's statistics do"""
+    specs = []
+    for j in range(k):
+        size = sizes[j % len(sizes)]
+        b = rng.randint(8, 30)
+        specs.append({"size": size, "opening": c08.random_opening(rng, size, rng.choice([0, 1, 2, 4])),
+                      "eval": {"kind": ["random", "drift", "dense" if size == 3 else "random", "pm1"][j % 4],
+                               "seed": rng.randrange(1 << 30), "len": "max", "dyadic": True},
+                      "sampler": {"mode": ["torch", "uniform", "skew"][j % 3], "seed": rng.randrange(1 << 30)},
+                      "noise": None, "C": rng.choice([4.0, 1.5, 8.0]), "cutoff": 1e-6,
+                      "phases": [{"path": [], "limit": b}, {"path": [rng.randrange(1000)], "limit": b + rng.randint(0, 10)},
+                                 {"path": [], "limit": 2 * b + 5}],
+                      "tag": "root-asked-again-after-search-below-a-child"})
+    return specs
+
+
+def all_specs(run):
+    v = dict(volumes(run))
+    reuse = v.pop("reuse")
+    return c08.gen_specs(run, **v) + reuse_specs(run.rng, reuse)
 
 
 def one_search(spec):
     """worker: recorded searches of one spec + the oracle + the Coq case; picklable result"""
     import torch
     torch.set_num_threads(1)
-    trace = c08.do_search(spec, record_solver=True, select=True)
+    trace = c08.do_search(spec, record_solver=True, select=True, after_phase=after_phase)
     c08_problems, c08_stats = c08.audit(trace)
     problems, st = examine(trace)
     if os.environ.get("VERIF_COQ_ONLY") and not trace["crash"]:
@@ -216,7 +280,7 @@ def correspondence(run):
     import torch
     torch.set_num_threads(1)
     c08.tie_cutoff(run)
-    specs = c08.gen_specs(run, **volumes(run))
+    specs = all_specs(run)
     cs = core.Cases(ID, "calls", c08.HEADER, CTYPE, CHECK, show=SHOW, shard=(2 if run.quick else 4))
     dist, total = Counter(), Counter()
     samples, seen = [], set()
@@ -276,7 +340,7 @@ def search(run, broken):
 def replay(run, rp):
     core.setup_impl(ext=True, shims=True)
     spec = rp["spec"]
-    trace = c08.do_search(spec, record_solver=True, select=True)
+    trace = c08.do_search(spec, record_solver=True, select=True, after_phase=after_phase)
     problems, st = examine(trace)
     out = {"oracle_problems": problems[:6], "stats": dict(st)}
     disagrees = None
